@@ -431,7 +431,11 @@ def _g2h(run, M, qual):
             seen["alloc"] |= bool(good)
             ok &= bool(good)
         elif v == T.sym("output"):
-            ok &= not is_none
+            # the buffer is handed back as it is only when it can already hold the block: result_type(buffer, block) == buffer.dtype
+            fits = ("zero(-1*attr:dtype(output) + call:numpy.result_type(output, output_n))", "zero(attr:dtype(output) + -1*call:numpy.result_type(output, output_n))",
+                    "zero(-1*attr:dtype(output) + call:numpy.result_type(output_n, output))", "zero(attr:dtype(output) + -1*call:numpy.result_type(output_n, output))")
+            guarded = any(c in fits for c in conds)
+            ok &= (not is_none) and guarded
             seen["same"] = True
         elif a is not None and a[0] == "app" and a[1] == "astype" and T.dec(a[2][0]) == T.sym("output"):
             dt = T.dec(a[2][1])
@@ -443,7 +447,7 @@ def _g2h(run, M, qual):
         else:
             ok = False
     ok = ok and seen["alloc"] and seen["widen"]
-    run.check(ok, "G2h", qual, fn.loc(), "returns empty(oshape, dtype of the block result) for None, else the buffer or its cast to result_type(buffer, block result)",
+    run.check(ok, "G2h", qual, fn.loc(), "returns empty(oshape, dtype of the block result) for None, else the buffer (only if result_type(buffer, block result) is its own dtype) or its cast to that result_type",
               "%s is used as allocate-or-widen helper of the stacked output but its return paths are %s" % (
                   qual, [(cond_text(st.conds), T.show(_t(st.ret), 100) if st.ret is not None else st.status) for st in outs]), stmt="G2h:" + qual)
 
